@@ -14,7 +14,11 @@ use serde_json::json;
 pub struct C03;
 
 pub fn c03_strategy(max_n: usize, algs: BoxedStrategy<AlgSpec>) -> BoxedStrategy<SearchCase> {
-    net_any(max_n)
+    c03_strategy_from(net_any(max_n).boxed(), algs)
+}
+
+pub fn c03_strategy_from(nets: BoxedStrategy<NetCase>, algs: BoxedStrategy<AlgSpec>) -> BoxedStrategy<SearchCase> {
+    nets
         .prop_flat_map(move |net| {
             let m = net.m();
             (
@@ -679,6 +683,8 @@ impl Prop for C03 {
         let n = tier.pick(12, 40);
         prop_oneof![
             14 => c03_strategy(n, any_alg().boxed()).prop_map(C03Case::Direct),
+            // large networks (up to 400 / 1500 vertices): accumulation over hundreds of edges
+            1 => prop_oneof![19 => c03_strategy(n, base_alg().boxed()), 1 => c03_strategy_from(net_long(tier.pick(800, 1500)).boxed(), base_alg().boxed())].prop_map(C03Case::Direct),
             // networks with many alternatives (C13's generator): several routes per result
             2 => crate::props::c13::ksp_strategy(n.min(30)).prop_map(C03Case::Direct),
             1 => c03_app_strategy(n.min(16)).prop_map(C03Case::App),
